@@ -1282,6 +1282,28 @@ func (ex *Explorer) NilState(st *State, v ssa.Value) (int, *Fact) {
 	if definitelyNonNil(r) {
 		return 0, nil
 	}
+	if rc := resCE(st, r); rc != nil {
+		// result of an inlined call: judged by what the callee returned on this path
+		if rc.S == "nil" {
+			return 1, nil
+		}
+		if rc.V != nil && (definitelyNonNil(rc.V) || definitelyNonNil(ex.resolveKeepBox(nil, rc.V))) {
+			return 0, nil
+		}
+		if f, ok := st.live["nil:"+rc.S]; ok {
+			return b2i(f.Val), f
+		}
+		// (T, error) convention on the callee's own call: "X#k" is valid once "X#last" was found nil
+		if i := strings.LastIndex(rc.S, "#"); i > 0 {
+			for _, k := range sortedKeys(st.hist) {
+				f := st.hist[k]
+				if f.Kind == "nil" && f.Val && strings.HasPrefix(f.X, rc.S[:i]+"#") && f.X != rc.S {
+					return 0, f
+				}
+			}
+		}
+		return -1, nil
+	}
 	ce := ex.Canon(st, r)
 	if f, ok := st.live["nil:"+ce.S]; ok {
 		return b2i(f.Val), f
